@@ -51,7 +51,16 @@ let cmd_lex line =
     Printf.sprintf "%d:%d:%s" (int_of_n (tk_index k)) (int_of_n (bytes lexeme))
       (match e with None -> "-" | Some e -> String.map (fun c -> if c = ' ' then '_' else c) (ocaml_string (lex_err_msg e)))) toks)
 
+(* prep: preprocessed stream as  kind:bytelen:err *)
+let us s = String.map (fun c -> if c = ' ' then '_' else c) s
+let cmd_prep line =
+  let t = text_of_line line in
+  String.concat " " (List.map (fun ((k, len), e) ->
+    Printf.sprintf "%d:%d:%s" (int_of_n (tk_index k)) (int_of_n len)
+      (match e with None -> "-" | Some e -> us (ocaml_string (any_err_msg e)))) (prep_text t))
+
 let () =
   match Sys.argv with
   | [| _; "lex" |] -> each_line cmd_lex
+  | [| _; "prep" |] -> each_line cmd_prep
   | _ -> prerr_endline "usage: modelrun <cmd>"; exit 2
